@@ -137,6 +137,12 @@ pub fn run(run: &mut Run) -> PResult {
     run.rule = "every entry of the deck, the six preset starting-hand tables and the three slot-index tables against the generated full set of combinations each should enumerate (membership both ways, no duplicate, cardinality, suitedness split, higher card first, rows strictly increasing and in range); Deck::get for every index 0..4096, around every power of two, usize::MAX and proptest usize values. 'Generation' here is the enumeration of the combination space the table must equal. Non-trivial = table entries (none of the 2-of-4 rows, seven-card rows 8-19 and 50 of the 54 preset hands is referenced by a test) and out-of-range indexes; distinct = distinct entries / indexes".into();
     run.assume("the order of rows within a table is not asserted (only within a row: increasing / higher card first)");
     super::regress::replay_dir(run, "C18", check_case)?;
+    {
+        let idx: Vec<usize> = (0..70).chain([4095, 4096, 1 << 32, (1usize << 32) + 5, usize::MAX - 1, usize::MAX]).collect();
+        super::common::disturbance_pass(run, &idx, &|i| index_clause(*i), &|i| ("C18.index".into(), json!({"index": *i as u64}), format!("{}", i)))?;
+        let names: Vec<&'static str> = tables().iter().map(|t| t.0).collect();
+        super::common::disturbance_pass(run, &names, &|n| tables().into_iter().find(|t| t.0 == *n).map(|t| t.2).unwrap_or(Ok(())), &|n| ("C18.table".into(), json!({"table": n}), n.to_string()))?;
+    }
     let mut total = 0u64;
     for (name, n, r) in tables() {
         total += n;
@@ -200,6 +206,9 @@ pub fn run(run: &mut Run) -> PResult {
 }
 
 pub fn check_case(clause: &str, case: &Value) -> Result<(), String> {
+    if clause.ends_with(".after_disturbance") {
+        return super::common::replay_after_disturbance(case, check_case);
+    }
     match clause {
         "C18.table" => {
             let want = case["table"].as_str().unwrap_or("");
